@@ -4271,3 +4271,171 @@ func freshlyMade(p *Prog, v ssa.Value, depth int) bool {
 	}
 	return n > 0
 }
+
+// ---- round 20 ----
+
+// ruleMetaVerbatim — what the fetcher says about a package goes into the
+// manifest, and comes back out of it, as it was given.
+func ruleMetaVerbatim(id string) func(*Checker) {
+	return func(c *Checker) {
+		c.rule(id, "Between the string fields of PackageMeta and the string fields of the manifest's JSON structs nothing is computed: a value stored into one that derives from the other (in sourcebundle; through constructor parameters too), and what a PackageMeta getter returns, is the field's value itself — a field read, a parameter, a constant or a phi of those — not the result of a call or an operator (a commit message trimmed, shortened or re-encoded on the way is not retrievable unchanged).", 4)
+		p := c.P
+		isMetaOwner := func(t types.Type) string {
+			if pt, ok := t.Underlying().(*types.Pointer); ok {
+				t = pt.Elem()
+			}
+			n, ok := t.(*types.Named)
+			if !ok || n.Obj().Pkg() == nil || !strings.HasSuffix(n.Obj().Pkg().Path(), "/sourcebundle") {
+				return ""
+			}
+			st, ok := n.Underlying().(*types.Struct)
+			if !ok {
+				return ""
+			}
+			if n.Obj().Name() == "PackageMeta" {
+				return "meta"
+			}
+			for i := 0; i < st.NumFields(); i++ {
+				if strings.Contains(st.Tag(i), "json:") {
+					return "manifest"
+				}
+			}
+			return ""
+		}
+		fieldKind := func(v ssa.Value) (string, *types.Var) {
+			switch x := v.(type) {
+			case *ssa.FieldAddr:
+				return isMetaOwner(x.X.Type()), fieldOf(x)
+			case *ssa.Field:
+				return isMetaOwner(x.X.Type()), fieldOf(x)
+			}
+			return "", nil
+		}
+		readKind := func(v ssa.Value) string {
+			switch x := v.(type) {
+			case *ssa.UnOp:
+				if x.Op == token.MUL {
+					k, _ := fieldKind(x.X)
+					return k
+				}
+			case *ssa.Field:
+				k, _ := fieldKind(x)
+				return k
+			}
+			return ""
+		}
+		// verbatim: v is a field read, a parameter, a constant, or a phi of those
+		var verbatim func(v ssa.Value, seen map[ssa.Value]bool) (bool, string)
+		verbatim = func(v ssa.Value, seen map[ssa.Value]bool) (bool, string) {
+			v = canon(v)
+			if seen[v] {
+				return true, ""
+			}
+			seen[v] = true
+			switch x := v.(type) {
+			case *ssa.Const, *ssa.Parameter, *ssa.FreeVar:
+				return true, ""
+			case *ssa.Field:
+				return true, ""
+			case *ssa.UnOp:
+				if x.Op == token.MUL {
+					return true, ""
+				}
+			case *ssa.Phi:
+				for _, e := range x.Edges {
+					if ok, why := verbatim(e, seen); !ok {
+						return false, why
+					}
+				}
+				return true, ""
+			case *ssa.Extract:
+				return true, "" // a decoded or looked-up value, not one of the two kinds of field
+			}
+			return false, fmt.Sprintf("%s (%T)", v.String(), v)
+		}
+		derivesFrom := func(v ssa.Value, kind string) bool {
+			for w := range p.backSlice(v, 0) {
+				if readKind(w) == kind {
+					return true
+				}
+			}
+			return false
+		}
+		n := 0
+		for _, fn := range p.Funcs {
+			if !inBundlePkg(p, fn) {
+				continue
+			}
+			eachInstr(fn, func(in ssa.Instruction) {
+				switch x := in.(type) {
+				case *ssa.Store:
+					if bt, ok := x.Val.Type().Underlying().(*types.Basic); !ok || bt.Kind() != types.String {
+						return
+					}
+					k, fld := fieldKind(x.Addr)
+					if k == "" || fld == nil {
+						return
+					}
+					other := "meta"
+					if k == "meta" {
+						other = "manifest"
+					}
+					_, isParam := canon(x.Val).(*ssa.Parameter)
+					if !derivesFrom(x.Val, other) && !(k == "meta" && isParam) && !derivesFrom(x.Val, k) {
+						return
+					}
+					n++
+					ok, why := verbatim(x.Val, map[ssa.Value]bool{})
+					c.check(ok, id, p.FuncName(fn), "field "+fld.Name()+" stored as given", p.Pos(x.Pos()), "the stored value is a field read, a parameter or a constant", "the value stored into "+fld.Name()+" is computed on the way: "+why)
+				case *ssa.Return:
+					if fn.Signature.Recv() == nil || isMetaOwner(fn.Signature.Recv().Type()) != "meta" {
+						return
+					}
+					for i, r := range x.Results {
+						if bt, ok := r.Type().Underlying().(*types.Basic); !ok || bt.Kind() != types.String {
+							continue
+						}
+						if !derivesFrom(r, "meta") {
+							continue
+						}
+						n++
+						ok, why := verbatim(r, map[ssa.Value]bool{})
+						c.check(ok, id, p.FuncName(fn), fmt.Sprintf("result %d returned as stored", i), p.Pos(x.Pos()), "the getter returns the field's value", "the getter computes on the field's value: "+why)
+					}
+				}
+			})
+			// arguments handed to a module function that stores its parameters into PackageMeta
+			for _, ci := range callsIn(fn) {
+				g := ci.Common().StaticCallee()
+				if g == nil || !p.InModule(g) || g.Blocks == nil {
+					continue
+				}
+				for i, a := range ci.Common().Args {
+					if i >= len(g.Params) {
+						break
+					}
+					if bt, ok := a.Type().Underlying().(*types.Basic); !ok || bt.Kind() != types.String {
+						continue
+					}
+					stores := false
+					eachInstr(g, func(in ssa.Instruction) {
+						if st, ok := in.(*ssa.Store); ok && canon(st.Val) == ssa.Value(g.Params[i]) {
+							if k, _ := fieldKind(st.Addr); k == "meta" {
+								stores = true
+							}
+						}
+					})
+					if !stores || !derivesFrom(a, "manifest") {
+						continue
+					}
+					n++
+					ok, why := verbatim(a, map[ssa.Value]bool{})
+					c.check(ok, id, p.FuncName(fn), fmt.Sprintf("argument %d of %s handed over as read", i, g.Name()), p.Pos(ci.Pos()), "the argument is the manifest field's value", "the manifest's value is computed on before it becomes metadata: "+why)
+				}
+			}
+		}
+		if n == 0 {
+			c.anchorMissing(id, "stores between PackageMeta and the manifest structs")
+		}
+	}
+}
